@@ -21,13 +21,23 @@ def run():
             print(out[-800:])
     # 2. teeth: each deviation of Driver.tla breaks the invariants that state the property it names
     expect = {"SaveOnePerIter": "InvC07_times", "NoPreSave": "InvC07_times", "GearDoubleAdd": "InvC07_advance",
-              "SideStepWritesHidden": "InvC08_pure", "HiddenSurvivesSolve": "InvC08_fresh", "StaleItTag": "InvC08_split"}
+              "SideStepWritesHidden": "InvC08_pure", "HiddenSurvivesSolve": "InvC08_fresh", "StaleItTag": "InvC08_split",
+              "StaleCfl": "InvC08_pure"}
     for dev, inv in expect.items():
         cfg = "MC_Driver_dev_%s.cfg" % dev
         if not os.path.exists(os.path.join(core.SPEC, cfg)):
             continue
         r = core.tlc("MC_Driver", cfg, workers=4, cont=True, timeout=600)
         say(inv in r.violated, "deviation %s violates %s (%d violations)" % (dev, inv, len(r.violated)))
+    # 2b. teeth of the other models: every named deviation (a defect of the pinned code, or a seeded change, written into the
+    # specification as an alternative action) is rejected by the invariants of its module
+    for path in sorted(glob.glob(os.path.join(core.SPEC, "MC_*_dev*.cfg"))):
+        cfg = os.path.basename(path)
+        if cfg.startswith("MC_Driver_dev_"):
+            continue
+        module = cfg.split("_dev")[0]
+        r = core.tlc(module, cfg, workers=4, cont=False, timeout=600)
+        say(len(r.violated) > 0, "deviation %s is rejected by %s (%s)" % (cfg[len(module) + 1:-4], module, ",".join(sorted(r.violated))[:80]))
     # 3. binding: corrupted event traces recorded from the real code are rejected by Trace_Driver
     try:
         from . import driver_obs as D, driver_trace
